@@ -36,8 +36,13 @@ Definition check3 (e : env) (q : req) (p : list op) (w1 : bytes) (closed1 : bool
                  && no_handler_connection p in
   (* the whole request body was read before the response was finished *)
   let body_read := negb (q_early q) || negb (existsb (fun o => match o with Finish => true | _ => false end) p) in
+  (* a program that finishes inside prepare() of the early handler certainly finishes before the request
+     body was read: the application did not read the whole body, so the connection must not stay open,
+     whenever the response write completes *)
+  let finished_early := q_early q && existsb (fun o => match o with Finish => true | _ => false end) p in
   (* stays open only if allowed and self-delimiting *)
-  implb' (negb closed1) (allowed && self_delim)
+  implb' finished_early closed1
+  && implb' (negb closed1) (allowed && self_delim)
   (* ... and does stay open then (regular responses, body read) *)
   && implb' (allowed && self_delim && regular && body_read) (negb closed1)
   (* an HTTP/1.1 client is told when the connection will close *)
